@@ -67,6 +67,18 @@ func factsC18() {
 	addInt("c18SetAuthReturnsAfterClear", itoa(after), "backend.go setAuthExternal: return statements after `AlwaysDeny = false`")
 	addStrList("c18SetAuthAcquireArgs", callArgsText(back, sa, "AcquireAuthBackendName"), "backend.go setAuthExternal: arguments of AcquireAuthBackendName")
 	addStrList("c18SetAuthCleanup", c18Calls(back, sa, []string{"BuildUsedAuthBackends", "RemoveAuthBackendExcept"}), "backend.go setAuthExternal: the clean-up calls between the two acquire attempts")
+	var frontReads []string
+	ast.Inspect(sa.Body, func(n ast.Node) bool {
+		if s, ok := n.(*ast.SelectorExpr); ok && s.Sel.Name == "AuthBackendName" {
+			if x, ok := s.X.(*ast.SelectorExpr); ok && x.Sel.Name == "AuthExt" {
+				if t := c18Src(back, s); !has(frontReads, t) {
+					frontReads = append(frontReads, t)
+				}
+			}
+		}
+		return true
+	})
+	addStrList("c18SetAuthUsedFrontReads", frontReads, "backend.go setAuthExternal: reads of <HostPath>.AuthExt.AuthBackendName (names of frontend placed paths kept by the clean-up)")
 
 	// ---- buildBackendAuthExternal / buildHostAuthExternal: the guards
 	ba := methodDecl(back, "updater", "buildBackendAuthExternal")
